@@ -227,6 +227,42 @@ def gen_cases(ctx):
         if cls == "DisplacementFieldTransform" and N == 1:
             c["resize_to"] = [rng.randint(2, 6) for _ in range(D)]
         cases.append(c)
+    # coarse parameter lattices: stride > 1 x resize x align_corners x class; own-grid disp()/flow()/tensor() vs the point map
+    combos = [(cls, st_, rs, ac) for cls in NONRIGID for st_ in (2, 3) for rs in ((False, True) if "FreeForm" not in cls else (None,))
+              for ac in ((False, True) if "FreeForm" not in cls else (True,))]
+    for i in range(ctx.n(12, 48)):
+        cls, st_, rs, ac = combos[i % len(combos)] if i < len(combos) else rng.choice(combos)
+        D = 2 if i % 4 else 3
+        g = rgrid(rng, D, ac=ac)
+        g["size"] = [rng.randint(4, 6) for _ in range(D)]
+        c = {"kind": "nonrigid", "cls": cls, "D": D, "N": 1, "grid": g, "stride": st_, "param_seed": rng.randrange(1 << 30), "strided": True,
+             "points": [[[dy(rng, -1, 1) for _ in range(D)] for _ in range(3)]],
+             "world_points": [[[dy(rng, -2, 2, 2) for _ in range(D)] for _ in range(2)]]}
+        if rs is not None:
+            c["resize"] = rs
+        if cls.startswith("StationaryVelocity"):
+            c["steps"] = 3
+        cases.append(c)
+    # SequentialTransform(linear, displacement field): grid=True must reach the first member only (also through ImageTransformer)
+    for i in range(ctx.n(8, 40)):
+        D = 2
+        g = rgrid(rng, D)
+        g["size"] = [rng.randint(3, 5) for _ in range(D)]
+        shape = list(reversed(g["size"]))
+        u = [[[[dy(rng, -0.25, 0.25, 5) for _ in range(shape[1])] for _ in range(shape[0])] for _ in range(D)]]
+        lin = rand_linear(rng, ["Translation", "RigidTransform", "AnisotropicScaling", "AffineTransform", "Shearing"][i % 5], D, 1)
+        if lin["cls"] in ("Translation",):
+            lin["params"] = [[dy(rng, -0.5, 0.5) or 0.25 for _ in range(D)]]
+        tg = rgrid(rng, D)
+        tg["size"] = [rng.randint(2, 4) for _ in range(D)]
+        src = rgrid(rng, D)
+        src["size"] = [rng.randint(3, 6) for _ in range(D)]
+        src["center"] = [g["center"][j] + dy(rng, -0.5, 0.5, 2) for j in range(D)]
+        ishape = list(reversed(src["size"]))
+        img = [[[[dy(rng, -4, 4, 3) for _ in range(ishape[1])] for _ in range(ishape[0])]]]
+        cases.append({"kind": "seqgrid", "D": D, "grid": g, "linear": lin, "u": u, "target": tg, "source": src, "image": img,
+                      "padding": rng.choice(["border", "zeros"]), "probe": [[rng.randrange(s_) for s_ in tg["size"]] for _ in range(3)],
+                      "lattice": [[rng.randrange(s_) for s_ in g["size"]] for _ in range(3)]})
     # ImageTransformer
     for i in range(ctx.n(16, 100)):
         D = 2 if i % 3 else 3
@@ -341,10 +377,46 @@ def checks_for(c, r):
                 out.append(f"vcloser tol (ml_forward (K:=QcF) {qc_vec(x)} {ys}) {qc_vec(y)}")
                 out.append(f"vcloser tol (ml_spec (K:=QcF) {qc_vec(x)} {ys}) {qc_vec(y)}")
         return out
+    if k == "seqgrid":
+        ac = cb(r["grid"]["ac"])
+        g, tg, src = qgrid(r["grid"]), qgrid(r["target"]), qgrid(r["source"])
+        M = r["M"][0]
+        f, Mq = form_of(M, D), qc_mat(M)
+        ux, uy = nested(r["u"][0][0]), nested(r["u"][0][1])
+        for idx in c["lattice"]:
+            x = at(r["lattice"], idx)
+            for key in ("fwd", "fwd_grid"):
+                out.append(f"vcloser tol (qwarp_points2 {ac} {ux} {uy} (view_forward (K:=QcF) 2 {f} {Mq} {qc_vec(x)})) {qc_vec(at(r[key], idx))}")
+        pad = "PBorder" if c["padding"] == "border" else "PZeros"
+        img = nested(c["image"][0][0])
+        for idx in c["probe"]:
+            out.append(f"qcloser tolw (qwarp_seq_out2 {pad} {f} {ac} {Mq} {ux} {uy} {tg} {g} {src} {img} {qc_vec([float(v) for v in idx])}) "
+                       f"{qc(at(r['out'][0][0], idx))}")
+        return out
     if k == "nonrigid":
         ac = cb(r["grid"]["ac"])
         N = len(r["u"])
-        out.append(cb(r["disp_is_u"]))
+        out.append(cb(r["flow_is_disp"]))
+        gshape = list(reversed(c["grid"]["size"]))
+        if c.get("strided"):
+            # dense field on the own grid: the buffer itself when it has the grid's shape, else the buffer RESIZED with the grid's flag;
+            # either way x + disp(x) is the point map at the own lattice points
+            ms = " ".join(f"{v}%Z" for v in c["grid"]["size"])
+            for d in range(D):
+                if D == 2:
+                    out.append(f"mcloser tol (qresize2 {ac} {ms} {nested(r['u'][0][d])}) {qc_mat(r['disp_own'][0][d])}")
+                else:
+                    out.append(f"ball (map (fun p => mcloser tol (fst p) (snd p)) (combine (qresize3 {ac} {ms} {nested(r['u'][0][d])}) {nested(r['disp_own'][0][d])}))")
+            ref = r["own_lattice_fwd"][0]
+            lat = r["own_lattice"]
+            dev = 0.0
+            for idx in __import__("itertools").product(*[range(v) for v in c["grid"]["size"]]):
+                xx, yy = at(lat, idx), at(ref, idx)
+                dv = [at(r["disp_own"][0][d], idx) for d in range(D)]
+                dev = max(dev, max(abs(xx[d] + dv[d] - yy[d]) for d in range(D)))
+            out.append(cb(dev < 2e-5))
+        else:
+            out.append(cb(r["disp_is_u"]))
         for kk in range(N):
             comps = " ".join(nested(r["u"][kk][d]) for d in range(D))
             pts = c["points"][kk if len(c["points"]) > 1 else 0]
@@ -473,9 +545,14 @@ def explains(broken_item, found):
     if not keys:
         return False
     b = re.sub(r"\(deepali/[^)]*\)", "", broken_item.lower())
+    # consequences of a failed (fail-closed) translation: Gen/Transform.v is a stub, so everything importing it stops building and
+    # the case files cannot be evaluated; the cause is the translator item itself, which is matched below
+    if "was not found in the current environment" in b or "case file did not evaluate" in b or b.startswith("proof obligation: build failed"):
+        return True
     table = [(("fresh", "default", "reset_parameters", "transcendental node"), ("default-not-identity", "fresh")),
              (("multilevel", "ml_", "ml2"), ("multilevel",)),
-             (("sequential", "seq2", "seq_"), ("sequential",)),
+             (("sequential", "seq2", "seq_", "grid flags", "undeformed lattice"), ("sequential", "grid-flag", "imagetransformer.forward:sequence")),
+             (("grid_reshape", "grid_sample", "align_corners flag"), (".disp", "forward:grid-flag", "imagetransformer")),
              (("warp", "imagetransformer", "pullback", "sampling coordinates"), ("imagetransformer",)),
              (("disp", "affine_flow"), (".disp",)),
              (("points", "pointset", "forward"), (".points", "pointsettransformer", "tensor:differs", "forward"))]
